@@ -188,6 +188,7 @@ static KV genCase()
     // refinement pair k -> k+1; finest 129x256 (quick) or 257x512 (thorough; across-origin with tiny R0 stays at 129)
     s.div = thorough ? (!s.dirbc ? 2 : rint(2, 3)) : 2;
     s.threads = 2;
+    s.via_cli = rint(0, 1);
     s.put(c);
     return c;
 }
